@@ -9,7 +9,7 @@ for D in $LIST; do
   N=$(basename $D); P=$(echo $N | cut -d- -f1)
   if git -C /repo apply --check /verif/$D/patch.diff 2>/dev/null; then
     git -C /repo apply /verif/$D/patch.diff
-    ./check $P > $D/check_output.txt 2>&1; RC=$?
+    ./check $P --only c > $D/check_output.txt 2>&1; RC=$?   # --only c = every obligation, but the evidence of the clean tree is left alone
     git -C /repo checkout -- .
     V=$(grep -c '^VIOLATION' $D/check_output.txt)
     C=no; [ $RC -eq 1 ] && [ $V -gt 0 ] && C=yes
